@@ -289,7 +289,7 @@ edition = "2021"
 
 [dependencies]
 hcore = { path = "../../hcore" }
-orx-parallel = { path = "/repo", features = ["verif-hooks"] }
+orx-parallel = { path = "/verif/target/repo_va", features = ["verif-hooks"] }
 orx-concurrent-iter = "=1.30.0"
 ''' % name
 
@@ -328,7 +328,7 @@ edition = "2021"
 [dependencies]
 sched = { path = "../sched" }
 hcore = { path = "../hcore" }
-orx-parallel = { path = "/repo", features = ["verif-hooks"] }
+orx-parallel = { path = "/verif/target/repo_va", features = ["verif-hooks"] }
 orx-concurrent-iter = "=1.30.0"
 ''' + deps + '''
 [[bin]]
